@@ -228,7 +228,11 @@ def _diff(
                 ignore=ignore,
             )
         except FileNotFoundError:
-            pass
+            # only a missing workspace path means "nothing there yet"; if staging
+            # failed on something inside it (e.g. a dangling symlink) we know
+            # nothing about the files in the way and must not treat them as new
+            if fs.exists(path):
+                raise
 
     diff = odiff(old, obj, cache)
     if relink:
